@@ -74,6 +74,47 @@ CHECKS = {
              "with an independent XML parser) of every C04, C15 and C12 scenario.",
         note=TB + "A report that is not written because of an earlier exception is recorded, not required.",
         technique="Coq proof of the JUnit model + model/implementation correspondence", ref="7 (C20)"),
+    "C02": dict(
+        text="Theorems (exact coordinates, unbounded sizes): any two strictly lexicographically sorted arrangements of the same points "
+             "are identical, likewise for cells ordered by an injective key; the connectivity of the sorted view is a function of "
+             "corner coordinates and the sorted point list only (so the sorted representation is canonical: independent of how the "
+             "input numbered its points). The index maps that sort_points actually produces are checked against this specification "
+             "by the Coq-verified checker on every run (T3). With coordinate noise the statement is tied by differential runs only "
+             "(relabeled + noisy pairs must pass, stage-by-stage Mesh.equals vs the model); this part is NOT a theorem.",
+        note=TB + "Noisy case and hash-collision freedom of the cell sort are assumptions; see DESIGN.md section 7 (C02).",
+        technique="Coq proof of sorting canonicity + verified checker on implementation output + differential runs", ref="7 (C02)"),
+    "C03": dict(
+        text="Theorem mesh_equal_sound over all meshes: a positive domain check implies equal point counts, every coordinate within "
+             "the tolerance formula, a one-to-one pairing of (compatible) cell types covering BOTH meshes, and cell-by-cell equal "
+             "corner sets; corollaries: a moved point, a differing number of cell types or points always fails; views only relabel "
+             "(C08) so the index correspondence of the compared views is a matching of the original points. Tied to the code by "
+             "single-site modifications at every site of small meshes (must fail) and stage-by-stage model comparison.",
+        note=TB + "Field-level soundness is inherited from C01/C09/C11.",
+        technique="Coq proof of mesh-equality soundness + model/implementation correspondence + exhaustive single-site modifications", ref="7 (C03)"),
+    "C08": dict(
+        text="Theorems: a point index map leaves type and ordered corner coordinates of every cell unchanged and transports "
+             "coordinates and point data together; uninitialised inverse entries are never read when all referenced points are "
+             "mapped; cell index maps that are permutations permute cells with their data; stripping keeps exactly the referenced "
+             "points; dimension extension only appends zeros; the checkers `check_strip`/`is_perm` are sound. Tied to the code by "
+             "explicit-index-map views vs the model (exact), verified checkers on the maps produced by strip/sort, and exact "
+             "content conservation over compositions of the public transformations.",
+        note=TB + "merge is covered in C06; np.argsort is an oracle (its output is checked, not modelled).",
+        technique="Coq proof of the view model + verified checkers on implementation output + exact content oracle", ref="7 (C08)"),
+    "C16": dict(
+        text="Theorems: soundness of mesh equality (as C03), totality of the cell-type pairing (no exception), exact "
+             "characterisation of the compatibility relation. Tied to the code by Mesh.equals vs the model on exact meshes in both "
+             "argument orders (symmetry, no exception, cell-type set variants) and by image/rectilinear/structured equals against "
+             "the exact explicit points of the same grids (flat directions, ordinates, origin, spacing). Open finding F-C16c "
+             "(ImageMesh parameter-wise comparison) is reported as KNOWN-FINDING.",
+        note=TB + "Symmetry of the model is checked by the differential runs, not yet a theorem; structured point generation is modelled in C07.",
+        technique="Coq proof of mesh-equality soundness + model/implementation correspondence", ref="7 (C16)"),
+    "C17": dict(
+        text="Theorems: extension only appends zeros (points, rows), keeps connectivity; rows of different dimension are never "
+             "close (mismatch fails when matching is disabled); a non-zero padded coordinate beyond tolerance fails; a mesh equals "
+             "its padded copy after extension. Tied to MeshFieldsComparator by low-dimensional meshes vs harness-padded 3d copies "
+             "in both roles, with relabeling, matching on/off, and non-zero entries in padded slots.",
+        note=TB + "(n,1) arrays are scalar fields by the library's convention; 1-component vector fields are outside the generated inputs.",
+        technique="Coq proof of the extension model + model/implementation correspondence", ref="7 (C17)"),
 }
 
 ALL = [f"C{i:02d}" for i in range(1, 21)]
